@@ -271,4 +271,32 @@ def wbs_clone_entry_unit():
     return Unit('WBS.clone', FW, build, ['C10'], timeout_ms=15000)
 
 
-UNITS = [clone_unit(), wbs_clone_unit(), wbs_clone_entry_unit()]
+tolist = Function('to_list_of', LT_.z, LT_.z)          # _to_list(xs) for a list of tasks without None: the same tasks in the same order (proved for _to_list in contracts/small.py)
+
+
+def wbs_subtree_unit():
+    """WBS.subtree, operand a list of tasks (no None): hands _to_list(roots) - the named tasks in their order - to __clone and returns what that returns."""
+    def build():
+        def c_to_list(eng, st, recv, a, k, n):
+            R = a[0].e; L = tolist(R)
+            st.assume(And(LT_.len(L) == LT_.len(R), ForAll([j_], Implies(And(0 <= j_, j_ < LT_.len(R)), LT_.at(L, j_) == LT_.at(R, j_)), patterns=[LT_.at(L, j_)])))
+            return [(st, V(L, LT_))]
+
+        def c_clone(eng, st, recv, a, k, n):
+            R = a[0].e
+            st.oblige('call/__clone/pre/receiver-is-a-live-WBS', And(recv.e != WBSR.null, Select(eng.field(st, 'WBS', '$alloc'), recv.e)), f'@{n.lineno}')
+            st.oblige('call/__clone/pre/roots-are-tasks', ForAll([j_], Implies(And(0 <= j_, j_ < LT_.len(R)), LT_.at(R, j_) != TASK.null)), f'@{n.lineno}')
+            ok = st.fork(); rej = st.fork()
+            return [(ok, V(cloneof(recv.e, R), WBSR)), (rej, Raise('RuntimeError'))]
+
+        def pre(c):
+            R = c['roots']
+            return And(c['self'] != WBSR.null, c.fld('WBS', '$alloc')[c['self']], LT_.len(R) >= 0,
+                       ForAll([j_], Implies(And(0 <= j_, j_ < LT_.len(R)), LT_.at(R, j_) != TASK.null), patterns=[LT_.at(R, j_)]))
+        fc = {'sig': {'self': WBSR, 'roots': LT_}, 'locals': {}, 'raises': {'RuntimeError': []}, 'requires': [('pre', pre)],
+              'ensures': [('C10/subtree-copies-exactly-the-named-tasks-in-their-order', lambda c: c.result.e == cloneof(c['self'], tolist(c['roots'])))]}
+        return Engine(FW, 'WBS.subtree', {'fn:_to_list': c_to_list, 'WBS._WBS__clone': c_clone}, W_CLASSES, fc, plugins=[WbsClonePlugin()]), AX
+    return Unit('WBS.subtree', FW, build, ['C10'], timeout_ms=15000)
+
+
+UNITS = [clone_unit(), wbs_clone_unit(), wbs_clone_entry_unit(), wbs_subtree_unit()]
